@@ -1,11 +1,13 @@
 from __future__ import annotations
 
 from dataclasses import dataclass, field
+from itertools import islice
 
 from typing_extensions import (
     Generic,
     Optional,
     Iterable,
+    Iterator,
     Dict,
     Any,
     Callable,
@@ -16,6 +18,11 @@ from typing_extensions import TypeVar, ClassVar
 from .utils import make_list, ALL
 
 T = TypeVar("T")
+
+_EXHAUSTED = object()
+"""
+Returned by next() on the source of a HashedIterable when there is nothing left to pull.
+"""
 
 
 @dataclass
@@ -139,10 +146,26 @@ class HashedIterable(Generic[T]):
 
         :return: An iterator over the hashed values.
         """
-        yield from self.values.values()
-        for v in self.iterable:
+        # Every iterator keeps its own position in the cache, so several live iterators (nested loops, interleaved
+        # evaluations that share a variable) each see every value once, whichever of them pulls it from the source.
+        source = (
+            self.iterable
+            if isinstance(self.iterable, Iterator)
+            else iter(self.iterable)
+        )
+        delivered = 0
+        while True:
+            if delivered < len(self.values):
+                for v in list(islice(self.values.values(), delivered, None)):
+                    delivered += 1
+                    yield v
+                continue
+            v = next(source, _EXHAUSTED)
+            if v is _EXHAUSTED:
+                if delivered < len(self.values):
+                    continue
+                return
             self.values[v.id_] = v
-            yield v
 
     def __or__(self, other) -> HashedIterable[T]:
         return self.union(other)
